@@ -526,9 +526,9 @@ def gen_data(rng, shape, nonzero=False):
 
 
 def gen_access(rng, sz, axes, allow_subs=True, diagonal=False):
-    """Random access (substitution) for a leaf with the given named axes.  Unless `diagonal`, a
-    substituted axis never reads a variable that is an identity axis of the same leaf or that another
-    key already reads (that region belongs to Tensor.eager_subs' diagonal handling, C04)."""
+    """Random access (substitution) for a leaf with the given named axes.  With `diagonal`, substituted
+    axes may read a variable that another axis of the same leaf already reads (directly or through its
+    own substitution): L(x=z, y=z), L(x=y) with y a surviving axis."""
     ident = []
     for name, size in axes:
         can_id = name < NGLOB and sz[name] == size
@@ -659,8 +659,8 @@ def _gen_raw(rng, stream):
                 return None
             nodes.append(("acc", lid, acc))
             continue
-        acc = gen_access(rng, sz, leaves[lid]["axes"], allow_subs=want_subs or stream == "subs-diagonal",
-                         diagonal=(stream == "subs-diagonal"))
+        acc = gen_access(rng, sz, leaves[lid]["axes"], allow_subs=want_subs,
+                         diagonal=(want_subs and rng.random() < 0.35))
         if acc is None:
             return None
         nodes.append(("acc", lid, acc))
@@ -797,9 +797,14 @@ def _violated(case):
                     out.add("subs-free-value")
                 elif not F <= ident:
                     out.add("subs-free-var")
-                vv = [ix[1] for _, ix in e[2] if ix[0] != "const"]
-                if len(vv) != len(set(vv)) or set(vv) & ident:
-                    out.add("subs-diagonal")
+                # (diagonal reads — two axes reading one variable, or a variable that is also a direct axis —
+                #  are part of the clean stream since Tensor.eager_subs takes the diagonal, /repo d536389)
+                if all(ix[0] == "var" for _, ix in e[2]) and len({ix[1] for _, ix in e[2]}) == len(e[2]) \
+                        and {ix[1] for _, ix in e[2]} & ident:
+                    # pure renaming onto a variable that is also a surviving axis of the same leaf: when the
+                    # adjoint reaching the Subs node is an exact Number, eager_scatter_number's "injective
+                    # renaming" shortcut returns it unchanged although the variable is not reduced
+                    out.add("scatter-number-shortcut")
         elif t == "cat":
             if case.get("cat_part_name") is not None:
                 out.add("cat-part-name")
@@ -1102,6 +1107,11 @@ FINDINGS = {
                            "AdjointTape keys adjoint_values by the un-mangled eager value: the same renaming x(i=k) of the "
                            "same leaf under two different binders named k yields one key for two tape entries, and the "
                            "accumulated adjoint is propagated twice, e.g. (sum_k x(i=k) y(k)) * (sum_k x(i=k) z(k))"),
+    "scatter-number-shortcut": ("KF-adjoint-scatter-number-shortcut",
+                                "tensor.eager_scatter_number returns the source for any injective all-Variable substitution, "
+                                "also when the renamed-to variable is not in reduced_vars (it survives as an axis of the "
+                                "leaf): L(x='a') with L over (x, a), root = trace = L(x='a').reduce(add,'a'): the adjoint of L "
+                                "is all ones instead of the identity"),
     "opt-rebinding": ("KF-adjoint-unmangle-rebinding",
                       "after apply_optimizer hoists two reductions over the same base name into one Contraction, "
                       "AdjointTape.adjoint's un-mangling conflates the two binders"),
@@ -1151,6 +1161,16 @@ def dedicated(ctx, stream, n):
     for _ in range(n):
         if stream == "tape-key-collision":
             cases.append(gen_collision(ctx.rng))
+            continue
+        if stream == "scatter-number-shortcut":
+            n_ = ctx.rng.choice([2, 3])
+            a_ = ctx.rng.randrange(NGLOB)
+            sz_ = {v: 1 for v in range(NGLOB)}
+            sz_[a_] = n_
+            sz_[4] = n_
+            cases.append(dict(sz=sz_, leaves={0: dict(axes=[(4, n_), (a_, n_)], data=gen_data(ctx.rng, (n_, n_)))},
+                              expr=("sum", [a_], ("acc", 0, [(4, ("var", a_))])),
+                              sr=ctx.rng.choice(["add-mul", "logaddexp-add"]), opt=None))
             continue
         try:
             c = gen_case(ctx.rng, ctx.tier, stream=stream)
@@ -1252,6 +1272,19 @@ def aliasing_cases(rng):
                 c = mk(("sum", [o], ("mul", pl, pl)), {0: same[0]}, szs)
                 c["leaves"][0]["data"] = gen_data(rng, (n, m), nonzero=True)
                 out.append(c)
+            for dn in (2, 3):
+                dg = ("acc", 0, [(4, ("var", t)), (5, ("var", t))])
+                dax = {0: [(4, dn), (5, dn)]}
+                out.append(mk(("sum", [t], dg), dax, {t: dn}))                       # trace: Number upstream
+                out.append(mk(dg, dax, {t: dn}))                                     # bare diagonal read, free t
+                out.append(mk(("sum", [t], ("mul", dg, ("acc", 1, []))), {0: dax[0], 1: [(t, dn)]}, {t: dn}))
+                out.append(mk(("sum", [t], ("mul", dg, dg)), dax, {t: dn}))
+                dg3 = ("acc", 0, [(4, ("var", t)), (5, ("var", t)), (6, ("var", t))])
+                out.append(mk(("sum", [t], dg3), {0: [(4, dn), (5, dn), (6, dn)]}, {t: dn}))
+                dgi = ("acc", 0, [(4, ("var", t))])                                   # L(x4 = t) with t a surviving axis
+                out.append(mk(("sum", [t], dgi), {0: [(4, dn), (t, dn)]}, {t: dn}))
+                dgs = ("acc", 0, [(4, ("var", t)), (5, ("aff", t, 0, 1))])           # renaming + full slice, same variable
+                out.append(mk(("sum", [t], dgs), dax, {t: dn}))
             r_ = ("acc", 0, [(4, ("var", t))])
             out.append(mk(("sum", [t], ("mul", ("mul", r_, r_), ("acc", 1, []))), {0: [(4, n)], 1: [(t, n)]}, {t: n}))
             out.append(mk(("sum", [t], ("add", r_, r_)), {0: [(4, n)]}, {t: n}))
